@@ -1,5 +1,6 @@
 import DtsVerif.Drv.Merge
 import DtsVerif.Drv.Sections
+import DtsVerif.Drv.Shift
 /-! Line-protocol driver: one JSON request per line on stdin, one JSON reply per line on stdout. -/
 open Lean DtsVerif.Drv
 
@@ -9,6 +10,8 @@ def dispatch (op : String) (j : Json) : R Json :=
   | "merge.space" => opMergeSpace j
   | "merge.swapped" => opMergeSwapped j
   | "sections.eval" => opSectionsEval j
+  | "shift" => opShift j
+  | "suggest" => opSuggest j
   | _ => throw "bad-op"
 
 def handle (line : String) : String :=
